@@ -7,6 +7,11 @@ REPO_HOOK_COMMITS = subprocess.run(["git", "-C", "/repo", "log", "--format=%h %s
 
 # id: (category, technique, text, note, design_ref)
 CHECKS = {
+ "C01": ("exploration",
+         "TLA+ reference semantics of STB 34.101.31 (spec/ref/BeltBlock, BeltModes, BeltFmt) anchored by 50 appendix vectors evaluated by TLC; TLC recomputes every recorded call of the real library (Trace_Belt) and generates cases with predicted outputs that the harness replays (Gen_Belt)",
+         "Every belt mechanism is called on enumerated boundary structure (all CTS lengths, wide-block lengths 32..208, header lengths straddling 16, counters wrapping 32/64/128 bits, alteration classes of authenticated unwrapping, FMT alphabets x word lengths, the FMT block-count table by breakpoints) and each result is recomputed by TLC from the standard's definition; not a proof over all keys/data: data octets are seeded samples.",
+         "Trusted: TLC, the transcription of the standard in spec/ref (anchored by the appendix vectors in the same run), the C driver. ASan/UBSan build with exact-size buffers.",
+         "DESIGN.md section 4, C01"),
  "C20": ("model_checking",
          "TLC exhaustive model checking of sm/BtokPwd.tla rules on the transition table extracted from btokPwdTransition; counterexample replay; trace validation of random walks (trace/Trace_Pwd.tla)",
          "Exhaustive: all 16x4 states x 9 events of the real function are extracted, TLC checks rules R1..R8 on that graph from every initial PIN state (complete finite space), every counterexample is re-executed on the real function, and recorded random walks are validated step by step.",
